@@ -376,15 +376,30 @@ static void op_buffer_address(std::mt19937_64& rng, bool thorough)
   }
 }
 
+// adversary for the string copies: once RLBox has measured and range-checked the string, the
+// sandbox overwrites its terminator (inside the range that was given)
+static long g_drop_nul_at = -1;
+static void drop_nul_hook(const char* point, size_t)
+{
+  if (g_drop_nul_at >= 0 && std::strcmp(point, "string:after-check") == 0) {
+    MEM[g_drop_nul_at] = 'X';
+  }
+}
+
 static void op_string(std::mt19937_64& rng)
 {
   // strings of every length that end inside, exactly at the last byte, or run to the end
   // of the region without a terminator
   for (long st : { 0L, 100L, SIZE - 40, SIZE - 2, SIZE - 1 }) {
     for (long len = 0; len <= 45; len++) {
-      for (int variant = 0; variant < 2; variant++) {
+      for (int variant = 0; variant < 4; variant++) {
+        // variants 2, 3: the same two calls with the adversary above (terminated strings only)
+        bool adversary = variant >= 2;
         fill(rng);
         bool unterminated = st + len >= SIZE;
+        if (adversary && unterminated) {
+          continue;
+        }
         for (long i = 0; i < len && st + i < SIZE; i++) {
           MEM[st + i] = 'a' + (i % 26);
         }
@@ -392,24 +407,33 @@ static void op_string(std::mt19937_64& rng)
           MEM[st + len] = 0;
         }
         snap();
-        Ev ev("copy_and_verify_string", variant == 0 ? "unique_ptr" : "std::string");
+        static const char* SV[] = { "unique_ptr", "std::string", "unique_ptr+terminator-dropped", "std::string+terminator-dropped" };
+        Ev ev("copy_and_verify_string", SV[variant]);
+        std::vector<unsigned char> want(MEM + st, MEM + st + (unterminated ? 0 : len));
+        g_drop_nul_at = adversary ? st + len : -1;
+        rlbox::detail::verif_yield_hook = drop_nul_hook;
         // the range given is strlen+1 bytes; an unterminated string extends past the region
         ev.range("sbx", st, unterminated ? (W)(SIZE - st + 1) : (W)(len + 1));
         bool effect = true;
         const char* r = guarded([&] {
           auto p = ptr_at<char>(st);
-          if (variant == 0) {
+          if (variant % 2 == 0) {
             p.copy_and_verify_string([&](std::unique_ptr<char[]> s) {
-              effect = s && (long)std::strlen(s.get()) == len && std::memcmp(s.get(), MEM + st, len) == 0;
+              effect = s && (long)std::strlen(s.get()) == len && std::memcmp(s.get(), want.data(), len) == 0;
               return 0;
             });
           } else {
             p.copy_and_verify_string([&](std::string s) {
-              effect = (long)s.size() == len && std::memcmp(s.data(), MEM + st, len) == 0;
+              effect = (long)s.size() == len && std::memcmp(s.data(), want.data(), len) == 0;
               return 0;
             });
           }
         });
+        rlbox::detail::verif_yield_hook = nullptr;
+        g_drop_nul_at = -1;
+        if (adversary && !unterminated) {
+          MEM[st + len] = 0; // the adversary's write is not RLBox's: not part of the diff
+        }
         ev.finish(r, true, std::strcmp(r, "ok") != 0 || effect, st);
       }
     }
